@@ -1205,3 +1205,10 @@ MA('C11', 'adupdates array step without the outer step size',
    'step = stepsize * inner_stepsizes[j] if np.isscalar(inner_stepsizes[j]) else stepsize * np.asarray(inner_stepsizes[j])',
    'step = stepsize * inner_stepsizes[j] if np.isscalar(inner_stepsizes[j]) else np.asarray(inner_stepsizes[j])',
    'adupdates')
+M('C12', 'line search aborts on an infinite trial value', 'odl/solvers/util/steplen.py',
+  "            if np.isnan(fval):", "            if not np.isfinite(fval):", 'BacktrackingLineSearch')
+M('C20', 'sub-weighting of a product space drops the exponent', 'odl/space/pspace.py',
+  """            return ProductSpaceArrayWeighting(
+                np.asarray(self.weighting.array)[indices],
+                self.weighting.exponent)""",
+  """            return np.asarray(self.weighting.array)[indices]""", 'ProductSpace.__getitem__')
